@@ -46,6 +46,9 @@ Infer/Exec.vos Infer/Exec.vok Infer/Exec.required_vos: Infer/Exec.v Ir/Syntax.vo
 Infer/Script.vo Infer/Script.glob Infer/Script.v.beautified Infer/Script.required_vo: Infer/Script.v Ir/Syntax.vo Ir/Fold.vo Infer/Table.vo Infer/Unify.vo
 Infer/Script.vio: Infer/Script.v Ir/Syntax.vio Ir/Fold.vio Infer/Table.vio Infer/Unify.vio
 Infer/Script.vos Infer/Script.vok Infer/Script.required_vos: Infer/Script.v Ir/Syntax.vos Ir/Fold.vos Infer/Table.vos Infer/Unify.vos
+Infer/Sound.vo Infer/Sound.glob Infer/Sound.v.beautified Infer/Sound.required_vo: Infer/Sound.v Ir/Syntax.vo Ir/Fold.vo Infer/Table.vo Infer/Unify.vo Infer/Sym.vo
+Infer/Sound.vio: Infer/Sound.v Ir/Syntax.vio Ir/Fold.vio Infer/Table.vio Infer/Unify.vio Infer/Sym.vio
+Infer/Sound.vos Infer/Sound.vok Infer/Sound.required_vos: Infer/Sound.v Ir/Syntax.vos Ir/Fold.vos Infer/Table.vos Infer/Unify.vos Infer/Sym.vos
 Infer/Sym.vo Infer/Sym.glob Infer/Sym.v.beautified Infer/Sym.required_vo: Infer/Sym.v Ir/Syntax.vo Ir/Fold.vo Infer/Table.vo Infer/Unify.vo
 Infer/Sym.vio: Infer/Sym.v Ir/Syntax.vio Ir/Fold.vio Infer/Table.vio Infer/Unify.vio
 Infer/Sym.vos Infer/Sym.vok Infer/Sym.required_vos: Infer/Sym.v Ir/Syntax.vos Ir/Fold.vos Infer/Table.vos Infer/Unify.vos
@@ -88,6 +91,9 @@ Logic/Perm.vos Logic/Perm.vok Logic/Perm.required_vos: Logic/Perm.v Logic/Contra
 Logic/Program.vo Logic/Program.glob Logic/Program.v.beautified Logic/Program.required_vo: Logic/Program.v 
 Logic/Program.vio: Logic/Program.v 
 Logic/Program.vos Logic/Program.vok Logic/Program.required_vos: Logic/Program.v 
+Logic/Restrict.vo Logic/Restrict.glob Logic/Restrict.v.beautified Logic/Restrict.required_vo: Logic/Restrict.v Logic/Ground.vo
+Logic/Restrict.vio: Logic/Restrict.v Logic/Ground.vio
+Logic/Restrict.vos Logic/Restrict.vok Logic/Restrict.required_vos: Logic/Restrict.v Logic/Ground.vos
 Logic/Sem.vo Logic/Sem.glob Logic/Sem.v.beautified Logic/Sem.required_vo: Logic/Sem.v Logic/Program.vo
 Logic/Sem.vio: Logic/Sem.v Logic/Program.vio
 Logic/Sem.vos Logic/Sem.vok Logic/Sem.required_vos: Logic/Sem.v Logic/Program.vos
@@ -118,6 +124,9 @@ Props/C07.vos Props/C07.vok Props/C07.required_vos: Props/C07.v Rules/Assoc.vos
 Props/C08.vo Props/C08.glob Props/C08.v.beautified Props/C08.required_vo: Props/C08.v Rules/Builtin.vo
 Props/C08.vio: Props/C08.v Rules/Builtin.vio
 Props/C08.vos Props/C08.vok Props/C08.required_vos: Props/C08.v Rules/Builtin.vos
+Props/C09.vo Props/C09.glob Props/C09.v.beautified Props/C09.required_vo: Props/C09.v Engine/RecEngine.vo Engine/RecWitness.vo
+Props/C09.vio: Props/C09.v Engine/RecEngine.vio Engine/RecWitness.vio
+Props/C09.vos Props/C09.vok Props/C09.required_vos: Props/C09.v Engine/RecEngine.vos Engine/RecWitness.vos
 Props/C10.vo Props/C10.glob Props/C10.v.beautified Props/C10.required_vo: Props/C10.v Engine/RecEngine.vo Engine/RecWitness.vo
 Props/C10.vio: Props/C10.v Engine/RecEngine.vio Engine/RecWitness.vio
 Props/C10.vos Props/C10.vok Props/C10.required_vos: Props/C10.v Engine/RecEngine.vos Engine/RecWitness.vos
@@ -148,6 +157,12 @@ Props/C19.vos Props/C19.vok Props/C19.required_vos: Props/C19.v Check/Priorities
 Props/C20.vo Props/C20.glob Props/C20.v.beautified Props/C20.required_vo: Props/C20.v Rules/Orphan.vo
 Props/C20.vio: Props/C20.v Rules/Orphan.vio
 Props/C20.vos Props/C20.vok Props/C20.required_vos: Props/C20.v Rules/Orphan.vos
+Props/C21.vo Props/C21.glob Props/C21.v.beautified Props/C21.required_vo: Props/C21.v Rules/Wf.vo
+Props/C21.vio: Props/C21.v Rules/Wf.vio
+Props/C21.vos Props/C21.vok Props/C21.required_vos: Props/C21.v Rules/Wf.vos
+Props/C22.vo Props/C22.glob Props/C22.v.beautified Props/C22.required_vo: Props/C22.v Text/Syntax22.vo Text/Print.vo Text/Parse.vo Text/RoundTripAst.vo Text/RoundTripIr.vo Text/RoundTrip.vo
+Props/C22.vio: Props/C22.v Text/Syntax22.vio Text/Print.vio Text/Parse.vio Text/RoundTripAst.vio Text/RoundTripIr.vio Text/RoundTrip.vio
+Props/C22.vos Props/C22.vok Props/C22.required_vos: Props/C22.v Text/Syntax22.vos Text/Print.vos Text/Parse.vos Text/RoundTripAst.vos Text/RoundTripIr.vos Text/RoundTrip.vos
 Props/C24.vo Props/C24.glob Props/C24.v.beautified Props/C24.required_vo: Props/C24.v Text/LowerFail.vo Text/LowerFailFacts.vo
 Props/C24.vio: Props/C24.v Text/LowerFail.vio Text/LowerFailFacts.vio
 Props/C24.vos Props/C24.vok Props/C24.required_vos: Props/C24.v Text/LowerFail.vos Text/LowerFailFacts.vos
@@ -202,9 +217,15 @@ Text/Parse.vos Text/Parse.vok Text/Parse.required_vos: Text/Parse.v Text/Syntax2
 Text/Print.vo Text/Print.glob Text/Print.v.beautified Text/Print.required_vo: Text/Print.v Text/Syntax22.vo
 Text/Print.vio: Text/Print.v Text/Syntax22.vio
 Text/Print.vos Text/Print.vok Text/Print.required_vos: Text/Print.v Text/Syntax22.vos
+Text/RoundTrip.vo Text/RoundTrip.glob Text/RoundTrip.v.beautified Text/RoundTrip.required_vo: Text/RoundTrip.v Text/Syntax22.vo Text/TokEq.vo Text/Print.vo Text/Parse.vo Text/RoundTripAst.vo Text/RoundTripIr.vo
+Text/RoundTrip.vio: Text/RoundTrip.v Text/Syntax22.vio Text/TokEq.vio Text/Print.vio Text/Parse.vio Text/RoundTripAst.vio Text/RoundTripIr.vio
+Text/RoundTrip.vos Text/RoundTrip.vok Text/RoundTrip.required_vos: Text/RoundTrip.v Text/Syntax22.vos Text/TokEq.vos Text/Print.vos Text/Parse.vos Text/RoundTripAst.vos Text/RoundTripIr.vos
 Text/RoundTripAst.vo Text/RoundTripAst.glob Text/RoundTripAst.v.beautified Text/RoundTripAst.required_vo: Text/RoundTripAst.v Text/Syntax22.vo Text/TokEq.vo Text/Print.vo Text/Parse.vo
 Text/RoundTripAst.vio: Text/RoundTripAst.v Text/Syntax22.vio Text/TokEq.vio Text/Print.vio Text/Parse.vio
 Text/RoundTripAst.vos Text/RoundTripAst.vok Text/RoundTripAst.required_vos: Text/RoundTripAst.v Text/Syntax22.vos Text/TokEq.vos Text/Print.vos Text/Parse.vos
+Text/RoundTripIr.vo Text/RoundTripIr.glob Text/RoundTripIr.v.beautified Text/RoundTripIr.required_vo: Text/RoundTripIr.v Text/Syntax22.vo Text/TokEq.vo Text/Print.vo Text/Parse.vo
+Text/RoundTripIr.vio: Text/RoundTripIr.v Text/Syntax22.vio Text/TokEq.vio Text/Print.vio Text/Parse.vio
+Text/RoundTripIr.vos Text/RoundTripIr.vok Text/RoundTripIr.required_vos: Text/RoundTripIr.v Text/Syntax22.vos Text/TokEq.vos Text/Print.vos Text/Parse.vos
 Text/Syntax22.vo Text/Syntax22.glob Text/Syntax22.v.beautified Text/Syntax22.required_vo: Text/Syntax22.v 
 Text/Syntax22.vio: Text/Syntax22.v 
 Text/Syntax22.vos Text/Syntax22.vok Text/Syntax22.required_vos: Text/Syntax22.v 
